@@ -181,30 +181,31 @@ func (engine *Engine) TakeSnapshot() error {
 
 	// Open manifest file
 	var mf *os.File
+	var md []byte
 	mf, err := os.Open(path.Join(dirname, "manifest.bin"))
 	if err != nil {
 		if errors.Is(err, fs.ErrNotExist) {
-			// Create file if it does not exist
-			mf, err = os.Create(path.Join(dirname, "manifest.bin"))
-			if err != nil {
-				log.Println(err)
-				return err
-			}
+			// No manifest yet: this is the first snapshot. The manifest is only created once the
+			// snapshot it describes is completely on disk.
 			firstSnapshot = true
 		} else {
 			log.Println(err)
 			return err
 		}
-	}
-
-	md, err := io.ReadAll(mf)
-	if err != nil {
-		log.Println(err)
-		return err
-	}
-	if err := mf.Close(); err != nil {
-		log.Println(err)
-		return err
+	} else {
+		md, err = io.ReadAll(mf)
+		if err != nil {
+			log.Println(err)
+			return err
+		}
+		if err := mf.Close(); err != nil {
+			log.Println(err)
+			return err
+		}
+		// An empty manifest describes no snapshot either.
+		if len(md) == 0 {
+			firstSnapshot = true
+		}
 	}
 
 	manifest := new(Manifest)
